@@ -281,7 +281,7 @@ theorem takeLast_step (count : Nat) (q q' : List (Ctx × α)) (n n' : Notif α) 
       rw [eraseL_pairs, eraseL_pairs, hq]
     · apply nonNil_append
       · intro y hy
-        simp only [Machine.step, takeLastM, List.mem_map] at hy
+        simp only [List.mem_map] at hy
         obtain ⟨p, hp, rfl⟩ := hy
         exact hqn p hp
       · exact nonNil_single hnil
